@@ -479,17 +479,18 @@ impl std::fmt::Debug for Zp {
     }
 }
 
-pub const N_ZST: usize = 22;
+pub const N_ZST: usize = 23;
 fn run_zst(k: usize) -> Vec<String> {
     use std::sync::atomic::Ordering::SeqCst;
     use triomphe::{ArcUnion, OffsetArc};
     use unsize::{CoerceUnsize, Coercion};
     // expected number of values created (the original and each clone the path must make), where the path fixes it
-    let want_made: [usize; 22] = [1, 1, 1, 1, 1, 1, 2, 2, 2, 1, 1, 1, 1, 1, 1, 1, 1, 1, 1, 1, 2, 1];
+    let want_made: [usize; 23] = [1, 1, 1, 1, 1, 1, 2, 2, 2, 1, 1, 1, 1, 1, 1, 1, 1, 1, 1, 1, 2, 1, 0];
     let names = ["new / drop", "clone / drop both", "try_unwrap (sole owner)", "try_unwrap (shared)", "UniqueArc::into_inner", "unwrap_or_clone (sole owner)",
                  "unwrap_or_clone (shared)", "make_mut (shared)", "make_unique (shared)", "from Box", "Default", "OffsetArc round trip and clone_arc",
                  "ArcUnion second variant, clone", "unsized to dyn Debug", "new_uninit / write / assume_init", "into_raw / from_raw, borrow_arc().clone_arc()", "get_mut on a shared handle", "try_unique on a shared handle",
-                 "is_unique shared / sole", "get_mut and try_unique on a sole owner", "OffsetArc::make_mut (shared)", "deprecated Arc::write on a shared handle"];
+                 "is_unique shared / sole", "get_mut and try_unique on a sole owner", "OffsetArc::make_mut (shared)", "deprecated Arc::write on a shared handle",
+                 "(zero-sized ELEMENTS) a header-slice of more than isize::MAX unit elements, fat -> thin -> fat -> thin"];
     let tag = format!("zero-sized payload with a destructor through: {}", names[(k - 1) % names.len()]);
     alloc::reset();
     ev::LOG.clear();
@@ -624,6 +625,24 @@ fn run_zst(k: usize) -> Vec<String> {
             }
             drop((o, p));
         }
+        23 => {
+            use triomphe::HeaderWithLength;
+            for n in [isize::MAX as usize, isize::MAX as usize + 1, usize::MAX] {
+                let v: Vec<()> = vec![(); n];
+                let f = Arc::from_header_and_vec(HeaderWithLength::new(7u8, n), v);
+                if f.slice.len() != n {
+                    gate.borrow_mut().push("a fat Arc over n unit elements reports a different slice length");
+                }
+                let t = Arc::into_thin(f);
+                if t.slice.len() != n || t.header.length != n || t.with_arc(|a| a.slice.len()) != n {
+                    gate.borrow_mut().push("a ThinArc over n > isize::MAX unit elements shows a slice length other than the recorded one");
+                }
+                let f = Arc::from_thin(t);
+                let t = Arc::into_thin(f);
+                drop(t.clone());
+                drop(t);
+            }
+        }
         _ => {
             #[allow(deprecated)]
             {
@@ -645,7 +664,7 @@ fn run_zst(k: usize) -> Vec<String> {
         errs.push(format!("[panicked] {}: the path panicked", tag));
     }
     for g in gate.borrow().iter() {
-        errs.push(format!("[verdict] {}: {}", tag, g));
+        errs.push(format!("[{}] {}: {}", if k == 23 { "thin" } else { "verdict" }, tag, g));
     }
     let (made, drops) = (ZP_MADE.load(SeqCst), ZP_DROPS.load(SeqCst));
     if made != want_made[(k - 1) % want_made.len()] {
